@@ -30,7 +30,7 @@ T == Trace[l]
 \* lines that carry no model step of their own
 SkipLine ==
   /\ l <= Len(Trace)
-  /\ \/ T.ev \in {"InCall", "Propagate", "Commit", "End", "Out", "Corrupt", "Attend", "SendBytes", "Stale"}
+  /\ \/ T.ev \in {"InCall", "Propagate", "Commit", "End", "Out", "Corrupt", "Attend", "SendBytes", "Stale", "Refuse", "Skipped"}
      \/ (T.ev = "InRet" /\ T.ok)
      \/ (T.ev = "InRet" /\ ~T.ok /\ T.id <= rd /\ lines[T.id].cls = "X")      \* its Own line was the ReadIn step
      \/ (T.ev = "DoRet" /\ T.act = 2)
